@@ -11,7 +11,9 @@ import (
 	"syscall"
 
 	"github.com/cockroachdb/errors"
+	"github.com/cockroachdb/errors/barriers"
 	"github.com/cockroachdb/errors/domains"
+	"github.com/cockroachdb/errors/errorspb"
 	"github.com/cockroachdb/errors/extgrpc"
 	"github.com/cockroachdb/errors/exthttp"
 	gstatus "github.com/cockroachdb/errors/grpc/status"
@@ -76,6 +78,10 @@ func init() {
 	reg("unimpl", Leaf, 3, ix(0), ix(1, 2), true, 2)
 	reg("domnew", Leaf, 1, ix(0), nil, true, 1)
 	reg("gstatus", Leaf, 1, nil, ix(0), true, 1)
+	reg("errorf", Leaf, 3, ix(1), ix(0, 2), true, 1)
+	reg("unimplf", Leaf, 4, ix(0, 1), ix(2, 3), true, 1)
+	reg("protoleaf", Leaf, 0, nil, nil, true, 1)
+	reg("rterr", Leaf, 0, nil, nil, false, 1)
 	// foreign leaves
 	reg("goerr", Leaf, 1, ix(0), nil, false, 4)
 	reg("pkgnew", Leaf, 1, ix(0), nil, false, 2)
@@ -99,6 +105,9 @@ func init() {
 	reg("withmsgf", Wrap, 2, ix(1), ix(0), true, 1)
 	reg("withstack", Wrap, 0, nil, nil, true, 2)
 	reg("hint", Wrap, 1, ix(0), nil, true, 3)
+	reg("hintf", Wrap, 2, ix(0, 1), nil, true, 1)
+	reg("detailf", Wrap, 2, ix(0, 1), nil, true, 1)
+	reg("telemetry0", Wrap, 0, nil, nil, true, 1)
 	reg("detail", Wrap, 1, ix(0), nil, true, 3)
 	reg("safedetails", Wrap, 3, ix(1), ix(0, 2), true, 2)
 	reg("telemetry", Wrap, 2, nil, ix(0, 1), true, 2)
@@ -133,6 +142,8 @@ func init() {
 	// barriers
 	reg("handled", Barrier, 0, nil, nil, true, 3)
 	reg("handledmsg", Barrier, 1, ix(0), nil, true, 2)
+	reg("handledmsgf", Barrier, 2, ix(1), ix(0), true, 1)
+	reg("opaque", Barrier, 0, nil, nil, true, 1)
 	reg("handleddomain", Barrier, 1, nil, ix(0), true, 1)
 	reg("handleddommsg", Barrier, 2, ix(1), ix(0), true, 1)
 	reg("domhandled", Barrier, 0, nil, nil, true, 1)
@@ -143,6 +154,8 @@ func init() {
 	reg("mark", WrapHidden, 0, nil, nil, true, 2)
 	reg("secondary", WrapHidden, 0, nil, nil, true, 2)
 	reg("wrapfe", WrapHidden, 1, nil, ix(0), true, 1)
+	reg("combine", WrapHidden, 0, nil, nil, true, 1)
+	reg("newfwe", WrapHidden, 2, nil, ix(0, 1), true, 1)
 	// multi-cause
 	reg("join", Multi, 0, nil, nil, true, 3)
 	reg("gojoin", Multi, 0, nil, nil, false, 2)
@@ -163,7 +176,25 @@ var Sentinels = []error{
 	os.ErrNotExist, os.ErrPermission, os.ErrExist, os.ErrClosed,
 	io.EOF, io.ErrUnexpectedEOF,
 	UserSentinelA, UserSentinelB, IsSentinel,
+	os.ErrInvalid, os.ErrNoDeadline, os.ErrDeadlineExceeded,
 }
+
+// RuntimeErrors the "rterr" kind indexes with N[0].
+var RuntimeErrors = func() []error {
+	catch := func(f func()) (err error) {
+		defer func() { err = recover().(error) }()
+		f()
+		return nil
+	}
+	var m map[string]int
+	var p *struct{ X int }
+	var i interface{} = "s"
+	return []error{
+		catch(func() { m["x"] = 1 }),
+		catch(func() { _ = p.X }),
+		catch(func() { _ = i.(int) }),
+	}
+}()
 
 // Errnos the "errno" kind indexes with N[0].
 var Errnos = []syscall.Errno{syscall.ENOENT, syscall.EACCES, syscall.EEXIST, syscall.EAGAIN, syscall.ETIMEDOUT, syscall.EPERM, syscall.EINTR, syscall.ECONNREFUSED}
@@ -218,6 +249,14 @@ func Build1(n *Node, m Built) error {
 		return errors.AssertionFailedf(esc(S[0])+" %s", S[1])
 	case "unimpl":
 		return errors.UnimplementedError(errors.IssueLink{IssueURL: S[1], Detail: S[2]}, S[0])
+	case "errorf":
+		return errors.Errorf("%s "+esc(S[0])+" %s", S[1], errors.Safe(S[2]))
+	case "unimplf":
+		return errors.UnimplementedErrorf(errors.IssueLink{IssueURL: S[2], Detail: S[3]}, esc(S[0])+" %s", S[1])
+	case "protoleaf":
+		return &errorspb.TestError{}
+	case "rterr":
+		return RuntimeErrors[n.N[0]]
 	case "domnew":
 		return domains.New(S[0])
 	case "gstatus":
@@ -266,6 +305,12 @@ func Build1(n *Node, m Built) error {
 		return errors.WithStack(kids[0])
 	case "hint":
 		return errors.WithHint(kids[0], S[0])
+	case "hintf":
+		return errors.WithHintf(kids[0], esc(S[0])+" %s", S[1])
+	case "detailf":
+		return errors.WithDetailf(kids[0], esc(S[0])+" %s", S[1])
+	case "telemetry0":
+		return errors.WithTelemetry(kids[0])
 	case "detail":
 		return errors.WithDetail(kids[0], S[0])
 	case "safedetails":
@@ -339,6 +384,10 @@ func Build1(n *Node, m Built) error {
 		return errors.Handled(hid[0])
 	case "handledmsg":
 		return errors.HandledWithMessage(hid[0], S[0])
+	case "handledmsgf":
+		return barriers.HandledWithMessagef(hid[0], esc(S[0])+" %s", S[1])
+	case "opaque":
+		return errors.Opaque(hid[0])
 	case "handleddomain":
 		return errors.HandledInDomain(hid[0], errors.NamedDomain(S[0]))
 	case "handleddommsg":
@@ -358,6 +407,10 @@ func Build1(n *Node, m Built) error {
 		return errors.WithSecondaryError(kids[0], hid[0])
 	case "wrapfe":
 		return errors.Wrapf(kids[0], esc(S[0])+" %v", hid[0])
+	case "combine":
+		return errors.CombineErrors(kids[0], hid[0])
+	case "newfwe":
+		return errors.Newf(esc(S[0])+" %w "+esc(S[1])+" %v", kids[0], hid[0])
 	// ---- multi-cause
 	case "join":
 		return errors.Join(kids...)
